@@ -123,9 +123,9 @@ var pvarsAll = []pvar{
 var namings1 = []naming{
 	{"j", []string{"k"}, []string{"k"}, []string{"k"}, []string{"-j", "k"}},
 	{"lrj", []string{"k"}, []string{"k2"}, []string{"out"}, []string{"-l", "k", "-r", "k2", "-j", "out"}},
-	// thorough only:
+	// one-sided renaming: only the right (jr) or only the left (jl) join-field name differs from the output name
 	{"jr", []string{"k"}, []string{"k2"}, []string{"k"}, []string{"-j", "k", "-r", "k2"}},
-	{"jl", []string{"k"}, []string{"k2"}, []string{"k2"}, []string{"-j", "k2", "-l", "k"}},
+	{"jl", []string{"k2"}, []string{"k"}, []string{"k"}, []string{"-j", "k", "-l", "k2"}},
 }
 
 var namings2 = []naming{
@@ -214,6 +214,7 @@ type family struct {
 	sThin   bool     // -s on unsorted inputs only for the first naming / first pvar
 	// sortedOnly: only lists that are sorted by the key (key-less records anywhere); longer lists for the -s merge
 	sortedOnly bool
+	maxTotal   int  // when > 0: only pairs with len(L)+len(R) <= maxTotal
 	noIE       bool // the alphabet has no empty value: --ignore-empty is not varied
 	rotate     bool // the join field's position varies from record to record within each file
 }
@@ -240,23 +241,35 @@ func families(quick bool) []family {
 	k2 := t1("1", "2")
 	k3 := t1("1", "2", "3")
 	k3m := t1("1", "2", "3", missing)
+	p4 := pvarsAll[:4]
+	// two join fields whose first value may be a proper prefix of another one with a next byte below ','
+	// (space ! +): field-by-field order differs from the order of the comma-joined texts
+	var tp []tuple
+	for _, k := range []string{"x", "x+y", "x y", "ann", "ann marie", "a", "a!", "b"} {
+		tp = append(tp, tuple{k, "1"})
+	}
+	tp = append(tp, tuple{"x", "2"}, tuple{"ann", "2"})
 	if quick {
 		return []family{
 			{name: "one", alpha: k4, maxLen: 3, names: namings1[:2], pv: [][]pvar{p6, p3}, ifs: ",", formats: true, sThin: true},
 			{name: "one01", alpha: k5, maxLen: 2, must: "01", names: namings1[:2], pv: [][]pvar{p6, p3}, ifs: ",", formats: true, sThin: true},
-			{name: "two", alpha: t8, maxLen: 2, names: namings2, pv: [][]pvar{p2, p2}, ifs: ";", sThin: true},
+			{name: "two", alpha: t8, maxLen: 2, names: namings2, pv: [][]pvar{p2, p1}, ifs: ";", sThin: true},
 			{name: "zero", alpha: z, maxLen: 3, names: namings0, pv: [][]pvar{p2}, ifs: ","},
 			{name: "sorted5", alpha: k3, maxLen: 5, names: namings1[:1], pv: [][]pvar{p1}, ifs: ",", sortedOnly: true, noIE: true},
 			{name: "dup4", alpha: k2, maxLen: 4, names: namings1[:2], pv: [][]pvar{p2, p2}, ifs: ",", noIE: true, rotate: true, formats: true},
+			{name: "oneside", alpha: k4, maxLen: 2, names: namings1[2:4], pv: [][]pvar{p4, p4}, ifs: ","},
+			{name: "sorted2p", alpha: tp, maxLen: 3, maxTotal: 4, names: namings2[:1], pv: [][]pvar{p1}, ifs: ",", sortedOnly: true, noIE: true},
 		}
 	}
 	return []family{
-		{name: "one", alpha: k5, maxLen: 3, names: namings1, pv: [][]pvar{pvarsAll, pvarsAll, p2, p2}, ifs: ",", formats: true, sThin: true},
+		{name: "one", alpha: k5, maxLen: 3, names: namings1, pv: [][]pvar{pvarsAll, pvarsAll, p4, p4}, ifs: ",", formats: true, sThin: true},
 		{name: "two", alpha: t8, maxLen: 2, names: namings2, pv: [][]pvar{p6, p6}, ifs: ";"},
 		{name: "two3", alpha: t5, maxLen: 3, names: namings2, pv: [][]pvar{p2, p2}, ifs: ";", sThin: true},
 		{name: "zero", alpha: z, maxLen: 3, names: namings0, pv: [][]pvar{p6}, ifs: ","},
 		{name: "sorted5", alpha: k3m, maxLen: 5, names: namings1[:1], pv: [][]pvar{p1}, ifs: ",", sortedOnly: true, noIE: true},
 		{name: "dup4", alpha: k2, maxLen: 4, names: namings1[:2], pv: [][]pvar{p6, p6}, ifs: ",", noIE: true, rotate: true, formats: true},
+		{name: "oneside", alpha: k4, maxLen: 2, names: namings1[2:4], pv: [][]pvar{p6, p6}, ifs: ","},
+		{name: "sorted2p", alpha: tp, maxLen: 3, names: namings2, pv: [][]pvar{p1, p1}, ifs: ",", sortedOnly: true, noIE: true},
 	}
 }
 
@@ -289,6 +302,9 @@ func (f *family) pairs() []pairCase {
 	for _, l := range seqs {
 		for _, r := range seqs {
 			if f.must != "" && !has(l) && !has(r) {
+				continue
+			}
+			if f.maxTotal > 0 && len(l)+len(r) > f.maxTotal {
 				continue
 			}
 			out = append(out, pairCase{l, r})
@@ -476,8 +492,45 @@ func caseKey(args []string, L, R []tuple) string {
 	return strings.Join(a, " ") + "|L=" + tuplesString(L) + "|R=" + tuplesString(R)
 }
 
+// sortSelfCheck: "sorted by the join keys" is taken as ascending byte-wise
+// comparison field by field. Confirm on the real code that `mlr sort -f k -f m`
+// puts the family's whole alphabet in exactly that order (otherwise the domain
+// predicate of the -s law would be questionable: BROKEN, not a violation).
+func (rn *runner) sortSelfCheck(fam *family) {
+	n := &fam.names[0]
+	alpha := append([]tuple{}, fam.alpha...)
+	// worst case input: descending
+	sort.SliceStable(alpha, func(i, j int) bool {
+		for x := range alpha[i] {
+			if c := strings.Compare(alpha[i][x], alpha[j][x]); c != 0 {
+				return c > 0
+			}
+		}
+		return false
+	})
+	in := writeDKVP(buildLeft(alpha, n.lj, false, false), fam.ifs)
+	args := append(mainFlags(fam.ifs), "sort")
+	for _, f := range n.lj {
+		args = append(args, "-f", f)
+	}
+	r := vf.RunMlr(args, vf.MlrOpts{Stdin: &in})
+	recs, err := parseJSONL(r.Stdout)
+	if !r.OK() || err != nil {
+		rn.w.Broken("sort self-check failed to run: %s", r.String())
+		return
+	}
+	if _, loose := sortedness(recs, n.lj); !loose || len(recs) != len(alpha) {
+		rn.w.Broken("`mlr sort -f` does not order the alphabet of family %s byte-wise field by field: %s", fam.name, recsString(recs))
+		return
+	}
+	rn.count("sortcheck:mlr-sort-f-agrees-with-bytewise-tuple-order", 1)
+}
+
 func (rn *runner) block(fam *family, pc pairCase) {
 	w := rn.w
+	if fam.sortedOnly && len(fam.names[0].lj) > 1 && len(pc.L) == 0 && len(pc.R) == 0 {
+		rn.sortSelfCheck(fam)
+	}
 	rn.count("pairs:"+fam.name, 1)
 	rn.symbolCounts("L", pc.L)
 	rn.symbolCounts("R", pc.R)
@@ -917,8 +970,10 @@ func (rn *runner) formatPass(fam *family, n *naming, pc pairCase) {
 		L, R := buildLeft(pc.L, n.lj, hetero, fam.rotate), buildRight(pc.R, n.rj, hetero, fam.rotate)
 		rtext := writeDKVP(R, fam.ifs)
 		type lf struct{ fmtName, flag, lname, text string }
-		fmts := []lf{{"json", "json", "L.json", writeJSON(L)}}
-		if !hetero {
+		var fmts []lf
+		if hetero {
+			fmts = append(fmts, lf{"json", "json", "L.json", writeJSON(L)})
+		} else {
 			fmts = append(fmts, lf{"dkvp", "", "L.dkvp", writeDKVP(L, fam.ifs)})
 			if len(L) == 0 || homogeneous(L) {
 				fmts = append(fmts, lf{"csv", "csv", "L.csv", writeCSV(L)})
@@ -949,7 +1004,7 @@ func (rn *runner) formatPass(fam *family, n *naming, pc pairCase) {
 
 func run(c *vf.Ctx) {
 	c.Rule = "every (left list, right list) over the key alphabet with lists of bounded length x every option set of the family (7 emit-flag sets x --ignore-empty x field naming x prefix/keep variant x {default, -s}); each invocation goes through the whole CLI in-process (left file served by name, right stream on stdin). distinct_nontrivial = default-mode invocations whose reference output is non-empty (all invocations differ in input or options by construction)"
-	c.Assume("bounds: join-key alphabet {1, 2, empty, missing, 01}, lists of <= 3 records per side (quick: 01 only in lists of <= 2), two-field keys in lists of <= 2 (thorough: <= 3 on a 5-tuple alphabet), zero-field join on lists of <= 3; family dup4: keys {1,2}, all lists of <= 4 with the join field at a different position in successive records of each file; family sorted5: sorted lists of <= 5 over {1,2,3} (thorough: plus missing)")
+	c.Assume("bounds: join-key alphabet {1, 2, empty, missing, 01}, lists of <= 3 records per side (quick: 01 only in lists of <= 2), two-field keys in lists of <= 2 (thorough: <= 3 on a 5-tuple alphabet), zero-field join on lists of <= 3; family dup4: keys {1,2}, all lists of <= 4 with the join field at a different position in successive records of each file; family sorted5: sorted lists of <= 5 over {1,2,3} (thorough: plus missing); family oneside: one-sided renaming (-j k -r k2 / -j k -l k2), lists of <= 2 over {1,2,empty,missing}; family sorted2p: two join fields, first field over {x, x+y, x y, ann, ann marie, a, a!, b}, both sides sorted field by field (byte-wise), lists of <= 3 (quick: len(L)+len(R) <= 4)")
 	c.Assume("non-join field names never equal a join-field output name; left/right non-join names collide on v (always) and x (left record 1 / right record 0)")
 	c.Assume("relative position of right-unpaired records among paired records, and order among left-unpaired records, are not fixed by the documentation: counted as unconstrained, only their multiset is asserted")
 	c.Assume("-s (sorted-input mode): asserted equal as a multiset to default mode only when both inputs are sorted (lexically ascending on the join-field texts, key-less records anywhere; violations on lists whose key-less records are not last are reported under a separate key); on unsorted input only: terminates, exit 0, parseable output, no paired record that is not a true pairing")
@@ -973,7 +1028,7 @@ func run(c *vf.Ctx) {
 	c.Extra["families"] = fams
 	// vacuity: every flag and symbol must have been exercised
 	for _, k := range []string{"flag:--np", "flag:--ul", "flag:--ur", "flag:--ignore-empty", "flag:-s", "flag:-u", "flag:--lp", "flag:--rp", "flag:--lk", "flag:-l", "flag:-r", "flag:-j", "flag:-i",
-		"sym:L:1", "sym:L:2", "sym:L:E", "sym:L:M", "sym:L:01", "sym:R:1", "sym:R:E", "sym:R:M", "mode:s-sorted-input", "mode:s-sorted-input-dup-keys-both-sides-with-ul", "mode:s-unsorted-input", "leftfmt:json", "leftfmt:csv", "expect:has-pairs", "expect:has-left-unpaired", "expect:has-right-unpaired"} {
+		"sym:L:1", "sym:L:2", "sym:L:E", "sym:L:M", "sym:L:01", "sym:L:ann marie", "sym:L:x+y", "sym:L:a!", "sym:R:x y", "naming:jr", "naming:jl", "sortcheck:mlr-sort-f-agrees-with-bytewise-tuple-order", "sym:R:1", "sym:R:E", "sym:R:M", "mode:s-sorted-input", "mode:s-sorted-input-dup-keys-both-sides-with-ul", "mode:s-unsorted-input", "leftfmt:json", "leftfmt:csv", "expect:has-pairs", "expect:has-left-unpaired", "expect:has-right-unpaired"} {
 		if c.Counters[k] == 0 && os.Getenv("VERIF_C13_FAMILY") == "" {
 			c.Broken("vacuity: %s was never exercised", k)
 		}
